@@ -95,9 +95,14 @@ class Scoreboard:
             self.sb[i] = func(self.sb[i])
 
     def __getitem__(self, idx: int) -> Any:
+        if idx < 0:
+            # A negative slot index is outside the table; do not wrap around to its end
+            raise IndexError(f"Index {idx} is out of scoreboard range ({self.size - 1})")
         return self.sb[idx]
 
     def __setitem__(self, idx: int, value: Any) -> None:
+        if idx < 0:
+            raise IndexError(f"Index {idx} is out of scoreboard range ({self.size - 1})")
         self.sb[idx] = value
 
     def get(self, date: datetime) -> Any:
